@@ -527,7 +527,9 @@ PROPS["C02"] = {
     "theorems": ["WhatIs.C02.rsa_size_is_bitlen_fact", "WhatIs.C02.size_is_bitlen", "WhatIs.C02.container_independent",
                  "WhatIs.C02.bitLen_spec", "WhatIs.C02.byte_rule_witness", "WhatIs.C02.tables_ok", "WhatIs.C02.curve_paths_agree",
                  "WhatIs.C02.private_not_shown", "WhatIs.DerKeys.pub_fields", "WhatIs.DerKeys.dsa_fields", "WhatIs.DerKeys.strict_keys",
-                 "WhatIs.DerKeys.pkcs1pub_from_der", "WhatIs.DerKeys.dsa_from_der"],
+                 "WhatIs.DerKeys.pkcs1pub_from_der", "WhatIs.DerKeys.dsa_from_der",
+                 "WhatIs.C02.ssh_mpint_readback", "WhatIs.C02.ssh_rsa_blob_readback", "WhatIs.C02.ssh_rsa_blob_described",
+                 "WhatIs.C02.ssh_ed25519_blob_readback"],
     "facts": {"keys.rsaSizeFromByteLength": False, "names.curveOidCount": 19, "der.strictKeys": True, "der.pkcs1ExponentKind": "big", "der.pkcs1PubFieldCount": 2, "der.pkcs1PrivFieldCount": 10, "der.dsaPrivFieldCount": 6},
     "nontrivial": nt_c02,
     "rule": "keys written by the harness's own encoders into PKCS#1 public/private, SPKI, PKCS#8, SEC1, traditional DSA (DER and PEM, "
@@ -541,11 +543,16 @@ PROPS["C02"] = {
     "level_text": "Proof: for ALL moduli/primes the displayed size is the bit length in both attribute families (ASN.1 structures and "
                   "crypto.PublicKey), so the same key reports the same algorithm/size/curve whichever container carries it; the curve OID "
                   "table is injective and agrees with the Go-name path; the attribute builders take only the public part as input "
-                  "(non-interference by typing). Container decoding and metadata (comment, cipher, KDF parameters and units) are tied by "
+                  "(non-interference by typing). For OpenSSH public keys of type ssh-rsa and ssh-ed25519 the container decoding itself is a "
+                  "concrete model of x/crypto's ssh.ParsePublicKey (Model/SshWire.lean) with read-back theorems from the BYTES of the blob: "
+                  "the RFC 4253 blob written for any odd exponent 3 <= e < 2^24 and ANY modulus is parsed to exactly (e, n) and described "
+                  "with its type label and the bit length of n (ssh_rsa_blob_readback, ssh_rsa_blob_described, ssh_mpint_readback, "
+                  "ssh_ed25519_blob_readback); the PKCS#1 / DSA structures likewise (DerKeys). Decoding of the other containers and the "
+                  "metadata (comment, cipher, KDF parameters and units) are tied by "
                   "the differential run against the generator's ground truth, not proved.",
     "level_note": "Trusted: Lean kernel; translator (names, curve OIDs, the BitLen-vs-Size fact); library decoders (encoding/asn1, "
                   "x/crypto/ssh, putty-go, internal/ssh1) as oracles; OpenPGP keys are covered by C12; certificate SPKI by C03.",
-    "technique": "Lean 4 proof (size = bit length for all n; container independence; table injectivity) + regenerated facts + differential correspondence against generator ground truth",
+    "technique": "Lean 4 proof (size = bit length for all n; container independence; table injectivity; read-back of SSH wire blobs and PKCS#1/DSA structures from their bytes) + regenerated facts + differential correspondence against generator ground truth (incl. the sshblob operation against the Lean wire-format model)",
     "trusted_base": ["library container decoders (oracles)", "harness encoders for PPK/SSH1/DSA/PKCS#1 (ground truth)"],
     "assumptions": ["H-asn1, H-ssh: decoded fields are what the container stores"],
 }
